@@ -339,16 +339,19 @@ class Reporter:
             'coverage': cov, 'assumptions': list(assumptions), 'wall_s': round(wall, 2),
             'violations': len(self.violations),
         }
-        os.makedirs(os.path.join(VERIF, 'evidence'), exist_ok=True)
-        tmp = os.path.join(VERIF, 'evidence', '.%s.json.tmp' % self.prop)
+        # VERIF_OUT redirects evidence/replay output (used when the checks are pointed at a scratch copy of the tree,
+        # e.g. by tools/run_seeded.py, so that the committed evidence of /repo itself is not overwritten)
+        outbase = os.environ.get('VERIF_OUT', VERIF)
+        os.makedirs(os.path.join(outbase, 'evidence'), exist_ok=True)
+        tmp = os.path.join(outbase, 'evidence', '.%s.json.tmp' % self.prop)
         with open(tmp, 'w') as fh:
             json.dump(ev, fh, indent=1, default=str)
-        os.replace(tmp, os.path.join(VERIF, 'evidence', '%s.json' % self.prop))
+        os.replace(tmp, os.path.join(outbase, 'evidence', '%s.json' % self.prop))
         for k, (d, n, w) in self.known_hit.items():
             print('KNOWN-FINDING: property=%s %s [key=%s, %d case(s)]' % (self.prop, d, k, n))
         rc = 0
         if self.violations:
-            rdir = os.path.join(VERIF, 'replay', self.prop)
+            rdir = os.path.join(outbase, 'replay', self.prop)
             os.makedirs(rdir, exist_ok=True)
             for k, ws in self.violations.items():
                 fn = os.path.join(rdir, re.sub(r'[^A-Za-z0-9_.-]+', '_', k)[:120] + '.json')
